@@ -22,7 +22,6 @@ import (
 	"github.com/crossplane/crossplane/internal/dag"
 	"github.com/crossplane/crossplane/internal/xpkg"
 	"github.com/crossplane/crossplane/verifh/kit"
-	"github.com/crossplane/crossplane/verifh/sim"
 	"github.com/crossplane/crossplane/verifh/xrk"
 )
 
@@ -219,5 +218,3 @@ func (x *exec) reconcileReal(revName string) error {
 	}
 	return nil
 }
-
-var _ = sim.OK
